@@ -532,6 +532,42 @@ func parseImports(parent importDef, src sourceCtxHelper, input string) ([]import
 
 // apply attributes from src to dst statement and all of its
 // child statements as well (e.g. For / Loop statements).
+// mergeTemplateAttrs gives dst the attributes of a collector template. Applying a template twice
+// must not change the result (a compiled model that is imported again is post-processed again):
+// array elements the target already lists, in the same order, are not appended a second time.
+func mergeTemplateAttrs(src map[string]*sysl.Attribute, dst map[string]*sysl.Attribute) {
+	fresh := map[string]*sysl.Attribute{}
+	for k, v := range src {
+		if have, ok := dst[k]; ok && have.GetA() != nil && v.GetA() != nil && containsRun(have.GetA().Elt, v.GetA().Elt) {
+			continue
+		}
+		fresh[k] = v
+	}
+	mergeAttrs(fresh, dst)
+}
+
+// containsRun reports whether the elements of run occur in list, contiguously and in order.
+func containsRun(list, run []*sysl.Attribute) bool {
+	if len(run) == 0 {
+		return true
+	}
+	for i := 0; i+len(run) <= len(list); i++ {
+		same := true
+		for j := range run {
+			a, b := list[i+j], run[j]
+			if a.GetS() != b.GetS() || (a.GetA() == nil) != (b.GetA() == nil) ||
+				(a.GetA() != nil && !(containsRun(a.GetA().Elt, b.GetA().Elt) && len(a.GetA().Elt) == len(b.GetA().Elt))) {
+				same = false
+				break
+			}
+		}
+		if same {
+			return true
+		}
+	}
+	return false
+}
+
 func applyAttributes(src *sysl.Statement, dst *sysl.Statement) bool {
 	var stmts []*sysl.Statement
 	applied := false
@@ -558,7 +594,7 @@ func applyAttributes(src *sysl.Statement, dst *sysl.Statement) bool {
 			if dst.Attrs == nil {
 				dst.Attrs = map[string]*sysl.Attribute{}
 			}
-			mergeAttrs(src.Attrs, dst.Attrs)
+			mergeTemplateAttrs(src.Attrs, dst.Attrs)
 			applied = true
 		}
 		return applied
@@ -639,7 +675,7 @@ func collectorPubSubCalls(appName string, app *sysl.Application) {
 			if modifyEP.Attrs == nil {
 				modifyEP.Attrs = map[string]*sysl.Attribute{}
 			}
-			mergeAttrs(collectorStmt.Attrs, modifyEP.Attrs)
+			mergeTemplateAttrs(collectorStmt.Attrs, modifyEP.Attrs)
 		case *sysl.Statement_Call:
 			applied := false
 
